@@ -361,9 +361,20 @@ package cache
 //@   trusted
 //@   modifies nothing
 //@   ensures result != nil
+// repoLocked: this process holds the lock file of the repository (taken while the cache is opened, given
+// back by Close).
+//@ ghost var repoLocked bool
+//@ ghost var closeCalls int
+//@ ghost var lastCloseOK bool
 //@ func (*RepoCache).Close
 //@   trusted
-//@   modifies repoWrites
+//@   modifies repoWrites, repoLocked, closeCalls, lastCloseOK
+//@   ensures [unlocked] result == nil ==> !repoLocked
+//@   ensures [counted]  closeCalls == old(closeCalls) + 1 && lastCloseOK == (result == nil)
+//@ func NewRepoCache
+//@   trusted
+//@   modifies repoLocked, repoWrites
+//@   ensures result != nil
 
 // ---- query evaluation (C12) --------------------------------------------------------------------------------
 // A Filter is a deterministic predicate on an excerpt (excerpts are not modified while a query holds the
@@ -537,3 +548,25 @@ package cache
 //@   opt locks
 //@   requires [not-held] i != nil && !sync.mheld[&i.mu]
 //@   ensures [lock-balanced] forall m *sync.Mutex :: { sync.mheld[m] } sync.mheld[m] == old(sync.mheld[m])
+
+// ---- the lock file (C19): decision logic of opening a repository ---------------------------------------------
+// repoIsAvailable: an existing lock file is only ever removed after the process whose pid it holds has been
+// tested and found dead - by exactly one liveness test, of exactly the pid read from the file - and when that
+// process is alive the answer is an error and nothing is removed. lock() does not create the lock file when
+// the repository is not available.
+//@ ghost var lastAvailable bool
+//@ func repoIsAvailable
+//@   props C19
+//@   requires repo != nil
+//@   modifies process.aliveChecks, process.lastAlivePid, process.lastAlive, repository.storageRemoves, repository.lastRemoved, lastAvailable
+//@   opt trusted_frame
+//@   ensures [holder-alive-refused]   process.aliveChecks > old(process.aliveChecks) && process.lastAlive ==> result != nil && repository.storageRemoves == old(repository.storageRemoves)
+//@   ensures [removed-only-when-dead] repository.storageRemoves > old(repository.storageRemoves) ==> repository.storageRemoves == old(repository.storageRemoves) + 1 && repository.lastRemoved == lockfile && process.aliveChecks == old(process.aliveChecks) + 1 && !process.lastAlive
+//@   ensures [one-check-at-most]      process.aliveChecks <= old(process.aliveChecks) + 1
+//@   assert at `err = repo.LocalStorage().Remove(lockfile)` [tested-pid-is-the-file-s] process.aliveChecks == old(process.aliveChecks) + 1 && !process.lastAlive && process.lastAlivePid == pid
+//@   defines [outcome] lastAvailable == (result == nil)
+//@ func (*RepoCache).lock
+//@   props C19
+//@   requires c != nil && c.repo != nil
+//@   ensures [no-lock-file-when-unavailable] !lastAvailable ==> result != nil && repository.storageCreates == old(repository.storageCreates)
+//@   ensures [creates-the-lock-file] result == nil ==> repository.storageCreates == old(repository.storageCreates) + 1 && repository.lastCreated == lockfile
